@@ -196,3 +196,153 @@ def group_semantics(R, prog, P):
         v = gf.verdict_for(prog, f.function)
         return v[1] if v[0] is True else None
     return confirmed
+
+
+ONE_SHOT_CALLS = {"product", "itertools.product", "combinations", "itertools.combinations", "permutations", "itertools.permutations",
+                  "combinations_with_replacement", "itertools.combinations_with_replacement", "zip", "map", "filter", "iter", "enumerate",
+                  "reversed", "chain", "itertools.chain", "islice", "itertools.islice", "groupby", "itertools.groupby", "accumulate",
+                  "itertools.accumulate", "zip_longest", "itertools.zip_longest", "starmap", "itertools.starmap"}
+CONSUMERS = {"list", "tuple", "sorted", "set", "frozenset", "sum", "any", "all", "max", "min", "dict", "enumerate", "zip", "map", "filter"}
+NEEDS_SEQUENCE = {"random.sample", "sample", "len", "random.choice", "random.shuffle", "reversed"}
+
+
+def check_iterator_reuse(R, prog, P, prefixes, floor_functions=10):
+    """ITERATOR-REUSE: a local bound once to a one-shot iterator (itertools.product / combinations / zip / map / a generator expression / a
+    call of a generator function) is consumed at most once on every path: a second loop over it, a loop over it inside another loop
+    that is entered after its creation, or random.sample / len of it sees nothing (or fails), so the constraints of the second use are
+    silently missing.  Uses in the two arms of one `if` are alternatives."""
+    import ast as _ast
+    from ..astutil import call_name, src, stmts_in
+    from ..report import Finding
+    nfun = 0
+    nfound = 0
+    for mname, m in sorted(prog.modules.items()):
+        if not any(mname == p or mname.startswith(p + ".") for p in prefixes):
+            continue
+        gens = {n.name for n in _ast.walk(m.tree) if isinstance(n, _ast.FunctionDef) and
+                any(isinstance(x, (_ast.Yield, _ast.YieldFrom)) for x in _ast.walk(n))}
+        for q, fi in sorted(m.functions.items()):
+            nfun += 1
+            fn = fi.node
+            parent = {}
+            for n in _ast.walk(fn):
+                for c in _ast.iter_child_nodes(n):
+                    parent[c] = n
+            # single-assignment names bound to a one-shot iterator at statement level of this function (not nested defs)
+            assigns = {}
+            stores = {}
+            for n in _ast.walk(fn):
+                if isinstance(n, _ast.Name) and isinstance(n.ctx, _ast.Store):
+                    stores[n.id] = stores.get(n.id, 0) + 1
+            for s in stmts_in(fn):
+                if isinstance(s, _ast.Assign) and len(s.targets) == 1 and isinstance(s.targets[0], _ast.Name):
+                    v = s.value
+                    one = isinstance(v, _ast.GeneratorExp) or (isinstance(v, _ast.Call) and ((call_name(v) or "") in ONE_SHOT_CALLS or
+                                                                                            (isinstance(v.func, _ast.Name) and v.func.id in gens)))
+                    if one and stores.get(s.targets[0].id) == 1:
+                        assigns[s.targets[0].id] = s
+            # a sequence is required: random.sample / len / random.choice / subscript of a one-shot iterator fails (TypeError) when reached
+            local_gens = gens | {n.name for n in _ast.walk(fn) if isinstance(n, _ast.FunctionDef) and n is not fn and
+                                 any(isinstance(x, (_ast.Yield, _ast.YieldFrom)) for x in _ast.walk(n))}
+
+            def one_shot_expr(e):
+                if isinstance(e, _ast.GeneratorExp):
+                    return True
+                if isinstance(e, _ast.Name) and e.id in assigns:
+                    return True
+                if isinstance(e, _ast.Call):
+                    cn = call_name(e) or ""
+                    if cn in ONE_SHOT_CALLS and cn not in ("reversed",):
+                        return True
+                    if isinstance(e.func, _ast.Name) and e.func.id in local_gens:
+                        return True
+                return False
+            for n in _ast.walk(fn):
+                if isinstance(n, _ast.Call) and (call_name(n) or "") in NEEDS_SEQUENCE and n.args and one_shot_expr(n.args[0]):
+                    nfound += 1
+                    R.bad(Finding(P, "ITERATOR-REUSE", fi, "%s hands a one-shot iterator to %s" % (q, call_name(n)),
+                                  "`%s`: %s needs a sequence (it asks for the length / indexes); a generator or itertools object makes it raise "
+                                  "TypeError when this line is reached" % (src(n)[:70], call_name(n)), node=n))
+                if isinstance(n, _ast.Subscript) and isinstance(n.ctx, _ast.Load) and one_shot_expr(n.value):
+                    nfound += 1
+                    R.bad(Finding(P, "ITERATOR-REUSE", fi, "%s indexes a one-shot iterator" % q,
+                                  "`%s`: an iterator cannot be indexed" % src(n)[:70], node=n))
+            for name, a in assigns.items():
+                uses = []
+                for n in _ast.walk(fn):
+                    if isinstance(n, _ast.Name) and n.id == name and isinstance(n.ctx, _ast.Load):
+                        p_ = parent.get(n)
+                        consuming = False
+                        if isinstance(p_, (_ast.For, _ast.comprehension)) and p_.iter is n:
+                            consuming = True
+                        elif isinstance(p_, _ast.YieldFrom):
+                            consuming = True
+                        elif isinstance(p_, _ast.Call) and n in p_.args and ((call_name(p_) or "") in CONSUMERS or (call_name(p_) or "").split(".")[-1] in
+                                                                             ("extend", "update", "add_clauses_from", "join")):
+                            consuming = True
+                        elif isinstance(p_, _ast.Starred):
+                            consuming = True
+                        if consuming:
+                            uses.append(n)
+                if not uses:
+                    continue
+
+                def chain(n):
+                    out = []
+                    while n in parent:
+                        out.append(n)
+                        n = parent[n]
+                    return out
+
+                def in_loop_after_creation(u):
+                    """is the use inside a loop (or comprehension generator other than the first) that does not contain the creation"""
+                    for anc in chain(u)[1:]:
+                        if isinstance(anc, (_ast.For, _ast.While)) and not any(x is a for x in _ast.walk(anc)):
+                            if isinstance(anc, _ast.For) and any(x is u for x in _ast.walk(anc.iter)):
+                                continue          # part of the loop's own iterable: evaluated once
+                            return anc
+                        if isinstance(anc, (_ast.ListComp, _ast.SetComp, _ast.DictComp, _ast.GeneratorExp)):
+                            gens_ = anc.generators
+                            for gi, g in enumerate(gens_):
+                                if any(x is u for x in _ast.walk(g.iter)) and gi > 0:
+                                    return anc
+                            if any(x is u for x in _ast.walk(anc.elt if hasattr(anc, "elt") else anc.value)) or \
+                                    any(x is u for g in gens_ for c_ in g.ifs for x in _ast.walk(c_)):
+                                return anc            # consumed once per element of the comprehension
+                    return None
+
+                def exclusive(u1, u2):
+                    c1, c2 = chain(u1), chain(u2)
+                    for x in c1:
+                        if isinstance(x, _ast.If) and x in c2:
+                            in_body1 = any(u1 is y for b in x.body for y in _ast.walk(b))
+                            in_body2 = any(u2 is y for b in x.body for y in _ast.walk(b))
+                            in_else1 = any(u1 is y for b in x.orelse for y in _ast.walk(b))
+                            in_else2 = any(u2 is y for b in x.orelse for y in _ast.walk(b))
+                            if (in_body1 and in_else2) or (in_else1 and in_body2):
+                                return True
+                    return False
+                bad = None
+                for u in uses:
+                    lp = in_loop_after_creation(u)
+                    if lp is not None:
+                        bad = (u, "it is consumed inside a loop entered after its creation (line %d): from the second round on it is empty" % lp.lineno)
+                        break
+                if bad is None:
+                    for i in range(len(uses)):
+                        for j in range(i + 1, len(uses)):
+                            if not exclusive(uses[i], uses[j]):
+                                bad = (uses[j], "it is consumed at line %d and again at line %d: the second use sees nothing" % (uses[i].lineno, uses[j].lineno))
+                                break
+                        if bad:
+                            break
+                if bad:
+                    nfound += 1
+                    R.bad(Finding(P, "ITERATOR-REUSE", fi, "%s consumes the one-shot iterator `%s` more than once" % (q, name),
+                                  "`%s = %s` is a one-shot iterator; %s (materialise it with list(..) or build it where it is used)" % (name, src(a.value)[:60], bad[1]),
+                                  node=bad[0]))
+    if not nfound:
+        R.ok("ITERATOR-REUSE", "no local one-shot iterator is consumed twice (%d functions of %s examined)" % (nfun, ", ".join(prefixes)), "cnfgen")
+    if nfun < floor_functions:
+        from ..loader import AnalysisError
+        raise AnalysisError("ITERATOR-REUSE examined %d functions (< %d)" % (nfun, floor_functions))
